@@ -15,21 +15,26 @@ CHECKS = {
             "(clauses NoFabrication, OnceUnlessFailed, FirstTxInOrder, PromptAtQuiesce, GarbledFrame) exhaustively for small constants; "
             "TLC-generated schedules, seeded order/mixed scripts and >256-send long runs are executed on the real AirTouchSocket and every "
             "recorded trace is validated by TLC against the contract through the byte-level front-end (reference framing, CRC and "
-            "message reading in TLA+).", "6 C01", SOCK_NOTE),
+            "message reading in TLA+). Thorough: sensitivity run F_ENQ=FALSE must violate OnceUnlessFailed.", "6 C01", SOCK_NOTE),
     "C02": ("Same machinery with the retry clauses AttemptBound, NotAfterExpiry, FailedFirstOnNext, FailedNotResent: SocketImpl explored with "
-            "all three policies and write faults; scripts place faults/refusals/connections at lifetime -125/0/+125 ms.", "6 C02", SOCK_NOTE),
+            "all three policies, write faults and back-pressure stalls (drain suspended while lifetimes run out; F_CLOCK sensitivity); scripts place "
+            "faults/refusals/connections at lifetime -125/0/+125 ms and drain held messages into connections that stall.", "6 C02", SOCK_NOTE),
     "C07": ("SocketImpl explored by TLC with the full fault alphabet (refuse, EOF, reset, bad frame, write fault, unencodable message, explicit reset, "
             "subscribers) against AtMostOne, AbandonedClosed, NoWedge, NoGiveUp and the contract; every replayed and generated fault script ends "
-            "with a heal phase judged by the clauses HealNotConnected/HealNotReceiving/HealNotTransmitting/AbandonedNotClosed.", "6 C07", SOCK_NOTE),
+            "with a heal phase judged by the clauses HealNotConnected/HealNotReceiving/HealNotTransmitting/AbandonedNotClosed; GaveUpConnecting "
+            "(open, idle > 2.5 s, nothing connected or pending) is judged at every checkpoint. Link failures use every OSError family; stalled "
+            "transports defer their close (overlapping resets). Thorough: F_DRAIN / F_ONE sensitivity runs.", "6 C07", SOCK_NOTE),
     "C13": ("Byte streams of 1..3 intact frames of both generations cut at every set of <=2 (<=3 for short streams) positions, byte-by-byte and "
-            "randomly, with 0..3 loop iterations between segments; TLC validates each recorded trace: deliveries = reference readings of the "
+            "randomly, with 0..3 loop iterations and 0.125..30 s between segments; TLC validates each recorded trace: deliveries = reference readings of the "
             "concatenated stream, once each, in order, no spurious reset.", "6 C13", SOCK_NOTE),
     "C15": ("SocketImpl with close() enabled in every state against ClosedIsFinal and the contract clauses AttemptAfterClose, WriteAfterClose, "
             "NotifyAfterClose, ResidualTasks, ConnLeftOpen, NotOpenNotRaised; scripts call close() at chosen instants and k loop iterations, "
-            "idle 10 s, send (must raise), optional re-open with heal phase.", "6 C15", SOCK_NOTE),
+            "idle 10 s, send (must raise), optional re-open with heal phase. API level: ClientImpl (TLA+ model of init/shutdown/handshake/heartbeat "
+            "tasks) with shutdown() enabled in every state against ShutdownIsFinal and ClientContract (StateAfterShutdown, ShutdownRaised), its "
+            "schedules replayed into the real client, shutdown during resets of stalled links.", "6 C15", SOCK_NOTE),
     "C16": ("SocketImpl with the queue bound scaled to 2 (only the length matters) against QueueBound and the contract clauses OverflowNotRaised, "
             "SpuriousOverflow, RejectedButSent, SpuriousNotOpen, NotAfterExpiry; scripts queue up to 14 messages with mixed lifetimes while "
-            "down, cross expiries, then connect.", "6 C16", SOCK_NOTE),
+            "down, cross expiries, then connect (also into connections that stall). Thorough: F_CAP sensitivity.", "6 C16", SOCK_NOTE),
 }
 
 WIRE_NOTE = ("The reference is the TLA+ wire layer (Crc16, Wire, AT4Msg, AT5Msg, WireMatch) transcribed from the vendor documents "
@@ -42,11 +47,14 @@ CHECKS.update({
             "sub-header lengths, CRC, reading = submitted object) and fed back into the real receive path; TLC validates the recorded trace "
             "(delivered header/message = reference reading, nothing left over, no reset).", "6 C03", WIRE_NOTE),
     "C05": ("The public decoders are run on payloads swept per byte position (256 values), per adjacent byte pair, over record counts 0..16, "
-            "announced strides and the cross product of documented codes; TLC judges every (payload, result) pair with Check_Decode: equal to "
-            "the reference reading (or its sensor-gated variant), absent where the reference is not-available, or rejected.", "6 C05", WIRE_NOTE),
+            "announced strides (zero and arbitrary tail bytes) and the cross product of documented codes; TLC judges every (payload, result) pair with "
+            "Check_Decode: equal to the reference reading (or its sensor-gated variant), absent where the reference is not-available, or rejected - "
+            "except the count/stride sweep of documented values, which must be decoded (DocumentedFrameRejected).", "6 C05", WIRE_NOTE),
     "C06": ("TLC checks the table lemma of Crc16 over all 65536 register values and the vendor anchors, judges calculate()/validate() on all 1- and "
             "2-byte strings (Check_Crc) and supplies the table for the fold over 3-byte strings; frames damaged by single/double-bit and burst "
-            "errors are fed to the real socket and the traces validated against the contract (no delivery, reset, heal).", "6 C06", WIRE_NOTE),
+            "errors are fed to the real socket and the traces validated against the contract (no delivery, reset, heal); frames on which the "
+            "checksum register passes through 0000/FFFF at the header end or frame end are fed intact (must be delivered) and with the check bytes "
+            "of a restarted computation (must not).", "6 C06", WIRE_NOTE),
     "C17": ("Frames of every unregistered type byte, unregistered 0x1F ids and 0xC0 sub-types and longer strides are fed on a live connection "
             "(strict: delivered as unsupported, no reset); random, mutated (recomputed CRC), truncated and wrong-length streams are fed and the "
             "traces validated: nothing misread, no unhandled exception, heal phase succeeds.", "6 C17", WIRE_NOTE + " " + SOCK_NOTE),
@@ -63,31 +71,41 @@ CHECKS.update({
             "6 C04", API_NOTE),
     "C08": ("Heartbeat answer patterns (prompt, late by 10 s / 29.875 s / 30.25 s / 60 s, never) over 3..5 beats, silence from the first beat, after a "
             "response and after a reset, on both generations in virtual time; ClientContract judges beats at start + k*300 s while connected and resets "
-            "exactly at the watchdog deadline chain (last response / start / previous expiry + 330 s), never otherwise.", "6 C08", API_NOTE),
+            "exactly at the watchdog deadline chain (last response / start / previous expiry + 330 s), never otherwise; also in a second life of the "
+            "same object and on links whose writes stall. TLC model-checks ClientImpl (heartbeat loop, watchdog, reader, link up/down, clock) against "
+            "the same contract; thorough: F_WATCHDOG sensitivity.", "6 C08", API_NOTE),
     "C09": ("Initialisation scenarios over installations (1..4 ACs, 0..16 zones, partitions, AT4 old/new ability format, AT5 zero-zone echo), extras "
             "interleaved at every step, arbitrary segmentation, silence at step i, connect delays around 5 s; ClientContract judges request order, one "
-            "at a time, init() outcome at the right time, and the snapshot against ApiModel (zones attached to the right AC).", "6 C09", API_NOTE),
+            "at a time, init() outcome at the right time, and the snapshot against ApiModel (zones attached to the right AC). TLC model-checks "
+            "ClientImpl (handshake state machine x init()/shutdown() x link x frames x clock) against the contract for both generations and its "
+            "simulated schedules are replayed into the real client.", "6 C09", API_NOTE),
     "C10": ("Status/timer/error/version histories with a snapshot of every public attribute after every frame, including the full cross product of "
             "documented AC power x mode x fan x flag codes; TLC compares each snapshot with ApiModel!AcSnap/ZoneSnap of the latest reference readings.",
             "6 C10", API_NOTE),
     "C11": ("Calls over all 2^5 mode bitmaps x fan bitmaps, all enum members, temperatures on the 0.05 grid incl. ties and out-of-range, dampers -5..105, "
             "sensor present/absent, turbo support, reported timer pairs; ClientContract judges ValueError + nothing sent for inadmissible calls and exactly "
-            "one frame with the rounded/clamped value (ApiModel!Expect) for admissible ones.", "6 C11", API_NOTE),
+            "one frame with the rounded/clamped value (ApiModel!Expect) for admissible ones. TLC model-checks ClientImpl with control calls (refused / "
+            "not-open / written / held 30 s for a down link) under link loss, shutdown and re-init; schedules with calls are replayed.", "6 C11", API_NOTE),
     "C12": ("Histories with subscribe/unsubscribe/double-subscribe placements, raising subscribers and unchanged repeats; per fed frame ClientContract "
             "derives who must be called (exposed attribute changed under every acceptable reading), who must not (identical report) and checks ids; "
-            "a raising subscriber must not reduce the others' calls nor stop reception (strict mode).", "6 C12", API_NOTE),
+            "a raising subscriber must not reduce the others' calls nor stop reception (strict mode); subscribers that (un)subscribe inside their "
+            "callback and one callback holding both kinds of AC subscription are included.", "6 C12", API_NOTE),
     "C14": ("Connection loss at random points after initialisation, console state changed meanwhile, outages 0..400 s, then reconnection: first frames "
             "= AC status and zone status requests, snapshot = console state, unchanged refresh = no callback; AT4 group-status gaps 100..1000 s: a poll "
-            "exactly at each 300 s deadline, none earlier.", "6 C14", API_NOTE),
+            "exactly at each 300 s deadline, none earlier, also while AC status / version / timer frames keep arriving and in a second life of the "
+            "object. TLC model-checks ClientImpl (link loss, refresh, AT4 poll) against the contract.", "6 C14", API_NOTE),
     "C18": ("discover() on simulated UDP with 0..3 datagrams per search (valid, duplicate, echo, malformed, invalid UTF-8, other generation) around the "
             "request instants, broadcast and unicast; DiscoveryContract judges request text/port/schedule, the stop rule, termination and the result set "
-            "(= parsed valid datagrams, model, port).", "6 C18", API_NOTE),
+            "(= parsed valid datagrams, model, port). TLC model-checks DiscoveryImpl (two search tasks, endpoint creation, request loop, callback "
+            "tasks; seven datagram kinds at every instant incl. exact ties) against the same contract and its schedules are replayed.", "6 C18", API_NOTE),
     "C19": ("The same abstract installation and history is rendered for both generations, both real clients are run, each trace is validated by "
             "Trace_Client and Check_Pair compares step by step: Common-projected snapshots equal, same accept/reject, AbstractCmd of the two frames equal.",
             "6 C19", API_NOTE),
 })
 
 TECH = "TLA+ spec (SocketImpl + SocketContract) model-checked by TLC; TLC-generated schedules replayed into the code; recorded traces validated by TLC (trace validation)"
+TECH_API = ("TLA+ contract (ClientContract / DiscoveryContract monitor + ApiModel oracle); implementation-shaped TLA+ model (ClientImpl / DiscoveryImpl) "
+            "model-checked by TLC against it; TLC-generated schedules replayed into the real client; recorded traces validated by TLC (trace validation)")
 
 
 def main():
@@ -105,6 +123,7 @@ def main():
             "technique": (TECH if pid in ("C01", "C02", "C07", "C13", "C15", "C16") else
                           "TLA+ reference wire specification evaluated by TLC on recorded results of the real codecs / validated traces of the real socket"
                           if pid in ("C03", "C05", "C06", "C17") else
+                          TECH_API if pid in ("C08", "C09", "C11", "C14", "C18") else
                           "TLA+ contract specification (monitor) + TLA+ oracle; traces recorded from the real client validated by TLC (trace validation)"),
         })
     claimed = set(CHECKS)
